@@ -84,10 +84,16 @@ def body_evalobj(E, n, m, with_h, preset, xr=False, scaling=False):
         E.prove(E.isfinite(f), 'C10:small-objective-success-has-a-finite-objective')
 
 
-def body_x0block(E, n, m, with_h, r0_old):
+def body_x0block(E, n, m, with_h, r0_old, int_resid=False):
     """x0-sampling block of solve_main: first point of a run, own budget test; ends at Controller construction"""
     log = EvalLog()
     objfun = mk_objfun(E, m, log)
+    if int_resid:
+        # an objective that returns an integer array (counts): the result must still carry the solver's own float64 array
+        def objfun(x, *args):
+            r = E.vec('fi%d_' % len(log.calls), m, dtype='i', lo=-1000, hi=1000)
+            log.calls.append({'x': x.copy(), 'r': r})
+            return r
     maxfun = E.int('maxfun', 1, None)
     params = mk_params(E, n, n + 1, maxfun)
     nf0 = E.int('nf0', 0, None)
@@ -148,6 +154,13 @@ def body_x0block(E, n, m, with_h, r0_old):
         # early exit at x0 (budget or small objective): C10 / C03 obligations
         xr_, rr, obj, jac, cnt, nf_r, nx_r, nruns_r, exit_info, di, xnum, jnums = ret
         E.prove(nruns_r == nruns0 + 1, 'C10:x0-exit:nruns-incremented-once')
+        isfloat = (rr.dtype == 'f') if E.symbolic else (str(rr.dtype) == 'float64')
+        keep_rr = [v for v in E.flat(rr)]
+        for c in log.calls:
+            c['r'][0] = c['r'][0] + 1          # the caller goes on using its own arrays
+        E.prove(isfloat and E.all([E.same(p_, q_) for p_, q_ in zip(E.flat(rr), keep_rr)]), 'C20:x0-exit:resid-is-the-solver-own-float64-array')
+        for c in log.calls:
+            c['r'][0] = c['r'][0] - 1
         E.prove(E.all([E.eq(rr[j], mean[j]) for j in range(m)]), 'C03:x0-exit:resid-is-mean-of-samples')
         E.prove(xnum == nx1, 'C03:x0-exit:xmin_eval_num-is-the-point-number-of-x0')
         f = sum(v * v for v in mean)
